@@ -34,3 +34,15 @@ Theorem C01_source_verify : forall (V : Type) (vnil : V) (iss : string)
   go_slen (fst (decode_key (prefix iss) iss)) = 32%Z /\ kp_verify (fst (from_public iss)) payload sig = None.
 Proof. exact src_verify_spec. Qed.
 Print Assumptions C01_source_verify.
+
+(* the unknown functions the decoder and the signature check consult, by name: the package's own decodeString and
+   per-kind loaders, json.Unmarshal of header / identifier / generic claims, the nkeys role predicates; for verify the
+   three nkeys functions.  A function put in their place keeps the shape of the translation and changes these lists. *)
+Theorem C01_source_decode_consults :
+  V2.Decode_consults = ["go_decodeString"; "go_json_Unmarshal_GenericClaims"; "go_json_Unmarshal_Header"; "go_json_Unmarshal_identifier";
+    "go_loadAccount"; "go_loadActivation"; "go_loadAuthorizationRequest"; "go_loadAuthorizationResponse"; "go_loadOperator"; "go_loadUser";
+    "go_nkeys_IsValidPublicAccountKey"; "go_nkeys_IsValidPublicOperatorKey"; "go_nkeys_IsValidPublicServerKey"; "go_nkeys_IsValidPublicUserKey"]%list /\
+  V2.ClaimsData_verify_consults = ["go_nkeys_Decode"; "go_nkeys_FromPublicKey"; "go_nkeys_Prefix"]%list /\
+  V2.parseHeaders_consults = ["go_decodeString"; "go_json_Unmarshal_Header"]%list.
+Proof. repeat split; reflexivity. Qed.
+Print Assumptions C01_source_decode_consults.
